@@ -12,6 +12,7 @@ import (
 	"reflect"
 	"runtime"
 	"strings"
+	"time"
 )
 
 type replayCase struct {
@@ -160,8 +161,12 @@ func FileLog(f *os.File) []byte {
 	return b
 }
 
-func PendingTimers() int { return 0 }
-func FireTimer(i int)    {}
+// PendingTimers reports how many timers are armed (engine only; natively unknown = 1).
+func PendingTimers() int { return 1 }
+
+// FireTimer lets the i-th pending timer fire. Natively the real timers (all far below 50 ms
+// in this library) are given time to fire.
+func FireTimer(i int) { time.Sleep(50 * time.Millisecond) }
 
 // Run is the entry point of the generated TestVerifReplay.
 func Run(harnesses map[string]func()) {
